@@ -4,7 +4,7 @@
    are regenerated from /repo (Gen/Tables.v) on every run, so editing the code changes the
    obligations below. *)
 From HT Require Import Model.Str Model.Serialize Spec.SerializeSpec Gen.Tables
-     Proofs.SerializeProofs.
+     Proofs.SerializeProofs Proofs.JsonCtxProofs.
 
 (* The translator found the two .replace literals and the extraction regex in the shape the
    model assumes (otherwise the literals below are empty and nothing here means anything). *)
@@ -68,6 +68,39 @@ Theorem C13_json_string_roundtrip :
   json_str_dec (neutralise (json_str_enc s)) = Some s.
 Proof. apply json_roundtrip_with. vm_compute. reflexivity. Qed.
 Print Assumptions C13_json_string_roundtrip.
+
+(* The same in context (compositional form): json.dumps(s) followed by ANY text r, the whole
+   text neutralised.  The scanner at the opening quote (json.decoder.scanstring, modelled by
+   read_string and run against it on every check) returns exactly s and a remaining text r1
+   that is r with some end-tag openers escaped (ins r r1), to which the same theorem applies
+   again: every key and every string value of the serialised dictionary is read back as written,
+   wherever it stands in the payload. *)
+Theorem C13_json_string_in_context :
+  forall s r : str, Forall scalar s ->
+  exists r1, ins r r1 /\ read_string (neutralise (json_str_enc s ++ r)) = Some (s, r1).
+Proof. apply json_string_in_context_with. vm_compute. reflexivity. Qed.
+Print Assumptions C13_json_string_in_context.
+
+(* a key, a separator without a less-than sign (the colon-space of json.dumps), a string value,
+   then any text: key and value are both read back as written *)
+Theorem C13_json_key_value_in_context :
+  forall k sep v r : str, Forall scalar k -> Forall scalar v -> ~ In 60 sep ->
+  exists r1, ins r r1 /\
+    match read_string (neutralise (json_str_enc k ++ sep ++ json_str_enc v ++ r)) with
+    | Some (k1, rest) =>
+      k1 = k /\ exists rest1, rest = sep ++ rest1 /\ read_string rest1 = Some (v, r1)
+    | None => False
+    end.
+Proof. apply json_key_value_in_context_with. vm_compute. reflexivity. Qed.
+Print Assumptions C13_json_key_value_in_context.
+
+(* the hypotheses are satisfiable and the conclusion is not trivial: a key whose text ends in a
+   less-than sign, a value that contains an end tag, more JSON after it *)
+Example C13_in_context_example :
+  read_string (neutralise (json_str_enc [60] ++ [58; 32] ++ json_str_enc [60; 47; 115] ++ [125]))
+  = Some ([60], [58; 32] ++ neutralise (json_str_enc [60; 47; 115]) ++ [125])
+  /\ read_string (neutralise (json_str_enc [60; 47; 115]) ++ [125]) = Some ([60; 47; 115], [125]).
+Proof. vm_compute. split; reflexivity. Qed.
 
 (* ------------------------------------------------------------------------------------ *)
 (* T3  extraction                                                                          *)
